@@ -303,6 +303,13 @@ def finish(ctx: Ctx, aud, spec):
       new.append(v)
   for p in aud['problems']:
     new.append({'key': 'proof-audit', 'what': p, 'case': {'theorem_or_audit': p}, 'concrete': False})
+  if any(v['concrete'] for v in new):
+    # a concrete failing input was found: model/impl disagreements of the same run are its symptoms,
+    # they are listed inside the replay file instead of being reported as `no-failing-input-found`
+    symptoms = [v for v in new if not v['concrete'] and v['key'] != 'proof-audit']
+    new = [v for v in new if v['concrete'] or v['key'] == 'proof-audit']
+    for v in new:
+      v['case'] = {'case': v['case'], 'model_disagreements_in_same_run': sorted({s_['key'] for s_ in symptoms})}
   rc = 0
   seen_keys = set()
   for v in new:
